@@ -618,6 +618,21 @@ fn next(ctx: &mut Ctx, call: &Value) -> Value {
             None => out::none(),
             Some(s) => out::some(super::elf::section_json(&s, if call["names"].as_bool().unwrap_or(false) { ctx_ext } else { None })),
         },
+        Some(It::HTags(it)) => match it.next() {
+            None => out::none(),
+            Some(t) => {
+                let h = t.header();
+                out::some(json!({
+                    "at": off((t as *const multiboot2_common::DynSizedStructure<multiboot2_header::HeaderTagHeader>).cast()),
+                    "typ": out::le(h.typ() as u16 as u64, 2),
+                    "flags": out::le(h.flags() as u16 as u64, 2),
+                    "size": out::le(h.size() as u64, 4),
+                    "pat": off(t.payload().as_ptr()),
+                    "plen": out::num(t.payload().len()),
+                    "sv": out::num(size_of_val(t)),
+                }))
+            }
+        },
         Some(_) => out::unsupported(),
     }
 }
